@@ -260,6 +260,23 @@ pub fn gen_manifest(rng: &mut Rng, dup_outputs: bool) -> AManifest {
         }
         // statements after an include in the main file may refer to things defined in the sub
     }
+    // scope flow across files: the main file binds `x` first, every nested file re-binds it from
+    // its own value, and the main file uses it again afterwards (a subninja must not leak the
+    // re-binding back; a later sibling starts from the parent's value again)
+    if nsub > 0 && rng.chance(1, 2) {
+        m.files[0].1.insert(0, AStmt::Bind("x".into(), vec![Tok::Lit("top".into())]));
+        for i in 1..=nsub {
+            m.files[i].1.insert(0, AStmt::Bind("x".into(), vec![Tok::Var("x".into()), Tok::Lit(format!("-s{}", i))]));
+        }
+        m.files[0].1.push(AStmt::Bind("late".into(), vec![Tok::Var("x".into()), Tok::Lit("!".into())]));
+        let mut b = ABuild::default();
+        b.outs.push(vec![Tok::Lit(format!("flow{}", counter))]);
+        b.n_eo = 1;
+        b.rule = "phony".into();
+        b.ins[0].push(vec![Tok::Lit("in-".into()), Tok::Var("x".into())]);
+        b.ins[0].push(vec![Tok::Var("late".into())]);
+        m.files[0].1.push(AStmt::Build(b));
+    }
     m
 }
 
